@@ -469,12 +469,14 @@ func runC04(args []string) {
 		}
 	})
 	// compile everything; attribute diagnostics per package
-	out, _ := pipe.RunGo(dir, "build", "-buildvcs=false", "-gcflags=-e", "./o/...")
+	out, berr := pipe.RunGo(dir, "build", "-buildvcs=false", "-gcflags=-e", "./o/...")
 	errs := splitBuildErrors(string(out), "corpus/o/")
+	checkBuildOutput("E1-E3 programs", string(out), berr, errs)
 	// the dynamic corpus (DESIGN §2.1) is compiled as well: its originals, uninstrumented
 	corpus := env.BuildCorpus(tier)
-	cout, _ := pipe.RunGo(corpus.Dir, "build", "-buildvcs=false", "-gcflags=-e", "./o/...")
+	cout, cberr := pipe.RunGo(corpus.Dir, "build", "-buildvcs=false", "-gcflags=-e", "./o/...")
 	cerrs := splitBuildErrors(string(cout), "corpus/o/")
+	checkBuildOutput("declaration corpus", string(cout), cberr, cerrs)
 
 	evals, refused, compiled := 0, 0, 0
 	var invalidInputs []string
@@ -590,4 +592,26 @@ func splitBuildErrors(out, prefix string) map[string]string {
 		res[pkg] += strings.TrimSpace(out[l[1]:end])
 	}
 	return res
+}
+
+// checkBuildOutput refuses to interpret a build that failed for reasons other than per-package
+// compile errors (a failed build that reports no package would otherwise read as "everything compiled").
+func checkBuildOutput(what, out string, err error, perPkg map[string]string) {
+	if err == nil {
+		return
+	}
+	stray := 0
+	for _, l := range strings.Split(out, "\n") {
+		l = strings.TrimSpace(l)
+		if l == "" || strings.HasPrefix(l, "#") {
+			continue
+		}
+		if strings.HasPrefix(l, "go: ") || strings.Contains(l, "no space left on device") || strings.Contains(l, "signal: killed") || strings.Contains(l, "cannot find module") {
+			stray++
+		}
+	}
+	if len(perPkg) == 0 || stray > 0 {
+		fmt.Printf("SETUP-FAILED: the compile step for the %s failed without attributable per-package errors (%v):\n%s\n", what, err, tailStr(out, 3000))
+		os.Exit(2)
+	}
 }
